@@ -11,9 +11,9 @@ HARNESS_BIN = "engine"
 SINGLE = ["f1", "f14"]
 PARTIAL = [
     "core_query_sound / core_session_inv / core_history_sound / core_*_no_out_of_fuel are proved in full for the core "
-    "model = programs of input and normal queries with ordered single reads and dynamic dependency sets (static rank = "
-    "key index). Firewall / projection / external nodes, transitive-firewall-callee sets, backward projection and "
-    "unordered groups live in the full model (Model/Engine.lean), which is tied to the code by correspondence; its "
+    "model = programs of input, normal and external-input queries with ordered reads and unordered read groups, dynamic "
+    "dependency sets, set / refresh / world writes (static rank = key index). Firewall / projection nodes, transitive-firewall-callee sets and backward projection "
+    "live in the full model (Model/Engine.lean), which is tied to the code by correspondence; its "
     "soundness is refuted as-is (known findings F1, F14: canonical replays) and not yet proved for the repaired "
     "configuration.",
 ]
